@@ -367,7 +367,7 @@ pub fn run(cfg: &RunCfg) -> Report {
     let mut rep = Report::new(
         "C05",
         "exploration",
-        "points (order of any of the 7 types, incoming quantity): (i) exhaustive grid display,hidden in 0..=8, threshold in {0,1,2,3,5,9}, amount in {None,0,1,2,3,5,80,81}, auto in {0,1}, incoming in 0..=18; (ii) full product of 13 64-bit boundary values over display/hidden/threshold/amount/incoming with display+hidden<=u64::MAX; (iii) proptest random points (small and boundary profiles). Each point is run through OrderType::match_against and through PriceLevel::match_order on a level holding only that order (skipped when the sweep needs >64 rounds) and compared field for field with an independent reference rule. Non-trivial = the reference says something happens (a fill, a replenishment, or the order leaves); distinct = 64-bit hash of the point.",
+        "points (order of any of the 7 types, incoming quantity): (i) exhaustive grid display,hidden in 0..=8, threshold in {0,1,2,3,5,9}, amount in {None,0,1,2,3,5,80,81}, auto in {0,1}, incoming in 0..=18; (ii) full product of 13 64-bit boundary values over display/hidden/threshold/amount/incoming with display+hidden<=u64::MAX; (iii) proptest random points (small and boundary profiles, values around powers of two and ten); (iv) stateful histories (as C06's, iceberg/reserve-heavy, with bulk operations) in which after every match each order must rest exactly as the reference rule says (the rules seen through a level holding many orders). Each point is run through OrderType::match_against and through PriceLevel::match_order on a level holding only that order (skipped when the sweep needs >64 rounds) and compared field for field with an independent reference rule. Non-trivial = the reference says something happens (a fill, a replenishment, or the order leaves); distinct = 64-bit hash of the point.",
     );
     rep.assumptions = vec![
         "iceberg tranche: any size <= min(exhausted display, hidden) and >= 1 is accepted, as the statement allows".into(),
@@ -387,6 +387,19 @@ pub fn run(cfg: &RunCfg) -> Report {
         json!("the grid (i) and the boundary product (ii) are enumerated completely on every run; (iii) is sampled"),
     );
     if !rep.failed() {
+        // the same rules seen through PriceLevel::match_order on levels holding many orders
+        // (E1 histories; oracle: after every match each traded / visited order rests exactly as
+        // the reference rule says)
+        let n = cfg.cases(150_000, 6_000_000);
+        let tier = cfg.tier;
+        rep.absorb(
+            "history",
+            explore(cfg, "C05-hist", n, move || crate::seq::history((C05H.cfg)(tier)), |h: &crate::seq::History, st| {
+                crate::checks::hist::eval(&C05H, h, st, (true, true))
+            }),
+        );
+    }
+    if !rep.failed() {
         let n = cfg.cases(2_000_000, 100_000_000);
         rep.absorb(
             "c05_point",
@@ -404,7 +417,32 @@ pub fn run(cfg: &RunCfg) -> Report {
     rep
 }
 
+fn c05h_cfg(t: Tier) -> crate::seq::HistCfg {
+    let mut c = crate::seq::HistCfg::general(t.pick(40, 100));
+    c.w_rebuild = 0;
+    c.w_read = 0;
+    c.w_bulk = 2;
+    c.kind_weights = [2, 6, 1, 1, 1, 1, 7];
+    c
+}
+
+pub const C05H: crate::checks::hist::HistCheck = crate::checks::hist::HistCheck {
+    id: "C05",
+    oracles: &[crate::seq::Oracle::Rule, crate::seq::Oracle::Panic],
+    cfg: c05h_cfg,
+    nontrivial: |f| f.partial_fills + f.replenishments >= 1,
+    rule: "",
+    quick: 150_000,
+    thorough: 6_000_000,
+    twin_without_reads: false,
+    assumptions: &[],
+};
+
 pub fn replay(v: &serde_json::Value) -> Result<(), String> {
+    if v["engine"] == "history" {
+        let h: crate::seq::History = load_case(v)?;
+        return crate::checks::hist::eval(&C05H, &h, &mut Stats::default(), (true, true));
+    }
     let p: Point = load_case(v)?;
     let mut st = Stats::default();
     eval_point(&p, &mut st)
